@@ -7,9 +7,9 @@ pub const CONTEXTS: [&str; 19] = [
     "when", "unless", "apply", "apply-apply", "apply-renamed", "apply-prefixed",
 ];
 pub const SHAPES: [&str; 6] = ["self", "mutual-2", "mutual-3", "through-parameter", "variadic", "closure-returned"];
-pub const SHAPES_ALL: [&str; 16] = [
+pub const SHAPES_ALL: [&str; 18] = [
     "self", "mutual-2", "mutual-3", "through-parameter", "variadic", "closure-returned", "internal-definition", "fresh-closure-per-iteration", "apply-as-parameter",
-    "body-with-internal-variable", "body-with-internal-procedure", "through-forwarder", "forwarder-cycle", "operator-is-a-conditional", "operator-is-and-or", "operator-with-an-effect",
+    "body-with-internal-variable", "body-with-internal-procedure", "through-forwarder", "forwarder-cycle", "operator-is-a-conditional", "operator-is-and-or", "operator-with-an-effect", "let*-bound-procedure", "when-with-several-forms",
 ];
 
 /// put `x` (an expression in tail position) into the tail position of the given context
@@ -132,6 +132,20 @@ pub fn program(shape: &str, ctxs: &[&str], n: u32) -> Vec<String> {
             forms.push("(define (next-step) (set! calls (+ calls 1)) loop)".to_string());
             forms.push(format!("(define (loop i acc) (probe i) (if (= i 0) (+ (* acc 10000) (floor-remainder calls 10000)) {}))", w("((next-step) (- i 1) (step acc i))")));
             forms.push(format!("(loop {} 1)", n));
+        }
+        "let*-bound-procedure" => {
+            // every iteration binds a procedure with let* (and let): nothing of an iteration may stay alive
+            forms.push(format!(
+                "(define (loop i acc) (probe i) (let* ((k (- i 1)) (f (lambda (a) (step a i))) (g (lambda (a) (f a)))) (let ((h (lambda (a) (g a)))) (if (= i 0) acc {}))))",
+                w("(loop k (h acc))")
+            ));
+            forms.push(format!("(loop {} 1)", n));
+        }
+        "when-with-several-forms" => {
+            // the tail call is the last of several body forms of when / unless
+            forms.push(format!("(define (loop-a i acc) (probe i) (if (= i 0) acc (when #t 0 1 {})))", w("(loop-b (- i 1) (step acc i))")));
+            forms.push(format!("(define (loop-b i acc) (probe i) (if (= i 0) acc (unless #f 0 {})))", w("(loop-a (- i 1) (step acc i))")));
+            forms.push(format!("(loop-a {} 1)", n));
         }
         "through-forwarder" => {
             // the tail call goes through a procedure whose whole body is (apply f args)
